@@ -16,8 +16,9 @@ Clause(o) ==
         b == PairClause(o.coll_strict, o.coll_collect)
         c == PairClause(o.same_strict, o.same_collect)     \* both loads given the same objects
         d == PairClause(o.file_strict, o.file_collect)     \* the documents written to a file and loaded with load_ruleset
+        e == PairClause(o.merge_strict, o.merge_collect)   \* one collection per document, merged from a generator
     IN  IF a # "" THEN a ELSE IF b # "" THEN "collection:" \o b ELSE IF c # "" THEN "same-objects:" \o c
-        ELSE IF d # "" THEN "load_ruleset:" \o d ELSE ""
+        ELSE IF d # "" THEN "load_ruleset:" \o d ELSE IF e # "" THEN "merge:" \o e ELSE ""
 Verdict(o) == LET c == Clause(o) IN [id |-> o.id, v |-> IF c = "" THEN "ok" ELSE "violation:" \o c]
 ASSUME ndJsonSerialize(IOEnv.VERIF_OUT, [i \in 1..Len(Obs) |-> Verdict(Obs[i])])
 Init == x = 0
